@@ -378,7 +378,7 @@ func (x *Exec) lockModifies(owner ast.Expr, m *modSet) {
 	for i := 0; i < su.NumFields(); i++ {
 		f := su.Field(i)
 		if ts.GuardedBy[f.Name()] == mu.Sel.Name {
-			m.heap[x.heapKeyField(ot, f.Name(), f.Type())] = true
+			m.markHeapUnknown(x.heapKeyField(ot, f.Name(), f.Type()))
 		}
 	}
 	for _, g := range x.ghostsGuardedBy(ts, mu.Sel.Name) {
